@@ -380,7 +380,11 @@ def classes():
                     f = simulator.fundamentals
                     mid = simulator.name2market[ch["market"]].market_id
                     taps.emit("fund_change_call", sim=simulator, change=ch, time=market.get_time())
-                    if ch["what"] == "volatility":
+                    if ch["what"] == "volatility" and ch.get("default_time"):
+                        f.change_volatility(market_id=mid, volatility=ch["value"])     # effective time defaults to 0
+                    elif ch["what"] == "drift" and ch.get("default_time"):
+                        f.change_drift(market_id=mid, drift=ch["value"])
+                    elif ch["what"] == "volatility":
                         f.change_volatility(market_id=mid, volatility=ch["value"], time=market.get_time())
                     elif ch["what"] == "drift":
                         f.change_drift(market_id=mid, drift=ch["value"], time=market.get_time())
